@@ -151,6 +151,11 @@ class Neg:
                 return a | b
             if op in ("<", ">", "<=", ">=", "==", "!=", "&&", "||"):
                 return frozenset()          # a truth value carries no decode data
+            if op == "*":
+                # multiplication by a positive constant keeps the sign
+                ca, cb = ex.const(f, e["c"][0]), ex.const(f, e["c"][1])
+                if (cb is not None and cb > 0 and not b) or (ca is not None and ca > 0 and not a):
+                    return a | b
             return frozenset((s, False) for s, _ in (a | b))
         if k == "un":
             op = e["op"]
@@ -331,3 +336,139 @@ class Neg:
                                                "" if p else " (through arithmetic/mask: a later `< 0` test cannot vouch for it)",
                                                " [earlier loop iteration]" if gen == OLD else ""))
         return "; ".join(parts)
+
+
+# --------------------------------------------------------------------------
+# further sinks
+
+def shift_sinks(a):
+    """Yield (node, taint) for every left shift whose left operand may be a
+    negative (unchecked, sign-preserving) decode result."""
+    f = a.f
+    pos = flow.elem_pos(f)
+    reach = f.reachable_blocks()
+    for i, e in enumerate(f.exprs):
+        if not ((e["k"] == "bin" and e["op"] == "<<") or (e["k"] == "asg" and e["op"] == "<<=")):
+            continue
+        p = pos.get(i)
+        if p is None or p[0] not in reach:
+            continue
+        st = _state_before_tree(a, i)
+        if st is None:
+            continue
+        t = frozenset((s, pz) for s, pz in a.taint(st, e["c"][0]) if pz)
+        if t:
+            yield i, t
+
+
+def _state_before_tree(a, eid):
+    f = a.f
+    pos = flow.elem_pos(f)
+    p = pos.get(eid)
+    if p is None:
+        return None
+    first, best = eid, p[1]
+    for n in ex.walk(f, eid):
+        q = pos.get(n)
+        if q is not None and q[0] == p[0] and q[1] < best:
+            best, first = q[1], n
+    st = flow.replay_block(f, a.IN, p[0], a.xfer_elem, upto=first)
+    # the operands' own side effects (t = call ()) must be visible: replay up to eid itself
+    return flow.replay_block(f, a.IN, p[0], a.xfer_elem, upto=eid) if st is not None else None
+
+
+def unexamined(a):
+    """Yield (assign event, variable) for every local assigned the result of a
+    decode call that, on some path, reaches the function exit or its next
+    plain assignment without being read."""
+    f = a.f
+    for bid, i in flow.all_events(f):
+        for lhs, var, op, rhs in flow.stores(f, i):
+            if rhs is None or op != "=":
+                continue
+            r = f.exprs[ex.skip(f, rhs)]
+            if not (r["k"] == "call" and (r.get("callee") in a.sources or r.get("callee") in a.extra)):
+                continue
+            if var is not None:
+                name, did = var["name"], var.get("did")
+            else:
+                le = f.exprs[ex.skip(f, lhs)]
+                if le["k"] != "ref" or le.get("dk") not in ("local", "param"):
+                    continue
+                name, did = le["name"], le.get("did")
+            # `err |= t = call ()`: the value of the assignment itself is consumed
+            if _value_used(f, i):
+                continue
+            if _dead_path(f, bid, i, name, did):
+                yield i, name
+
+
+def _value_used(f, asg):
+    """The assignment expression is an operand of a larger expression (its
+    value is used right away)."""
+    for j, e in enumerate(f.exprs):
+        if j == asg:
+            continue
+        if e["k"] in ("bin", "asg", "un", "call", "cond", "idx", "ret") or (e["k"] == "cast" and e["ck"] != "ToVoid"):
+            for c in e.get("c", []):
+                if ex.skip(f, c) == asg and not (e["k"] == "bin" and e["op"] == "," and e["c"][0] == c):
+                    return True
+    for b in f.blocks.values():
+        if b.term and "cond" in b.term and ex.skip(f, b.term["cond"]) == asg:
+            return True
+    return False
+
+
+def _is_read(f, n, name, did):
+    e = f.exprs[n]
+    if e["k"] == "cast" and e["ck"] == "LValueToRValue":
+        c = f.exprs[e["c"][0]]
+        if c["k"] == "ref" and c["name"] == name and c.get("did") == did:
+            return True
+    if (e["k"] == "asg" and e["op"] != "=") or (e["k"] == "un" and e["op"] in ("++", "--")):
+        c = f.exprs[ex.skip(f, e["c"][0])]
+        if c["k"] == "ref" and c["name"] == name and c.get("did") == did:
+            return True
+    if e["k"] == "un" and e["op"] == "&":
+        c = f.exprs[ex.skip(f, e["c"][0])]
+        if c["k"] == "ref" and c["name"] == name and c.get("did") == did:
+            return True        # address escapes: assume it is read
+    return False
+
+
+def _is_redef(f, n, name, did):
+    e = f.exprs[n]
+    if e["k"] == "asg" and e["op"] == "=":
+        c = f.exprs[ex.skip(f, e["c"][0])]
+        return c["k"] == "ref" and c["name"] == name and c.get("did") == did
+    return False
+
+
+def _dead_path(f, bid, eid, name, did):
+    elems = f.blocks[bid].elems
+    start = elems.index(eid) + 1
+    work = [(bid, start)]
+    seen = set()
+    while work:
+        b, k = work.pop()
+        blk = f.blocks[b]
+        res = None
+        for n in blk.elems[k:]:
+            if _is_read(f, n, name, did):
+                res = "read"
+                break
+            if _is_redef(f, n, name, did):
+                return True
+        if res == "read":
+            continue
+        if blk.noret:
+            continue
+        if b == f.exit:
+            return True
+        for s, _ in f.edges(b):
+            if s == f.exit:
+                return True
+            if s not in seen:
+                seen.add(s)
+                work.append((s, 0))
+    return False
